@@ -93,6 +93,9 @@ pub struct SchedOpts {
     pub c15: bool,
     pub max_steps: usize,
     pub max_execs: u64,
+    /// C05: after the concurrent phase the clock moves on by this many seconds; no record whose
+    /// own timestamp + TTL lies at or before the new time may then be returned by a get
+    pub advance_after: u64,
 }
 
 #[derive(Clone, Debug)]
@@ -148,7 +151,16 @@ thread_local! {
 struct DfsSched {
     started: bool,
     single: bool,
+    /// fairness: the task that ran last and for how many consecutive scheduling points
+    last: usize,
+    consec: u32,
 }
+
+/// A task that has taken this many scheduling points in a row while another client could run is
+/// spinning (no command of the store needs a tenth of it): it is made to yield to the others, at no
+/// preemption cost and without branching.  Waiting for somebody else is then not reported as a
+/// livelock - spinning that goes on once the others have finished still exhausts the step horizon.
+const SPIN_YIELD_AFTER: u32 = 2000;
 
 /// Per-program exploration state shared between the scheduler and `explore_program`.
 struct Driver {
@@ -254,6 +266,8 @@ pub fn set_deadline_in(secs: u64) {
 
 impl Scheduler for DfsSched {
     fn new_execution(&mut self) -> Option<Schedule> {
+        self.last = usize::MAX;
+        self.consec = 0;
         if self.single {
             if self.started {
                 None
@@ -292,9 +306,27 @@ impl Scheduler for DfsSched {
                 order.push(*i);
             }
         }
+        if cur_runnable {
+            if self.last == order[0] {
+                self.consec += 1;
+            } else {
+                self.last = order[0];
+                self.consec = 0;
+            }
+            if self.consec >= SPIN_YIELD_AFTER {
+                // forced yield of a spinner to the next client in id order
+                self.consec = 0;
+                self.last = order[1];
+                return Some(TaskId::from(order[1]));
+            }
+        }
         let mut costs = vec![if cur_runnable { 1u32 } else { 0u32 }; order.len()];
         costs[0] = 0;
         let idx = explore::choose(&costs).unwrap_or(0);
+        if order[idx] != self.last {
+            self.last = order[idx];
+            self.consec = 0;
+        }
         Some(TaskId::from(order[idx]))
     }
 
@@ -326,7 +358,7 @@ fn prepare(prog: &Program, opts: SchedOpts) -> Result<Prepared, String> {
         let reqs = init_reqs.clone();
         sut::IN_SCHED.with(|c| c.set(true));
         let r = sut::catch(std::panic::AssertUnwindSafe(move || {
-            let runner = shuttle::Runner::new(DfsSched { started: false, single: true }, shuttle_config(20_000));
+            let runner = shuttle::Runner::new(DfsSched { started: false, single: true, last: usize::MAX, consec: 0 }, shuttle_config(20_000));
             runner.run(move || {
                 let scratch = World::new(cfg);
                 let mut c = scratch.conn();
@@ -501,6 +533,28 @@ fn body(p: &Arc<Prepared>) {
             }
         }
     }
+    // C05: time passes after the race; whatever order the race took, a record past its own
+    // timestamp + TTL is never returned
+    if p.opts.advance_after > 0 {
+        world.clock.advance(p.opts.advance_after);
+        let now = world.clock.now();
+        for k in &p.prog.keys {
+            let rec = dump_at_rest.iter().find(|d| &d.key == k).cloned();
+            let out = c0.exec(&Req::get(op::GET, k).opaque(0xf2).bytes());
+            if let (Some(d), Some(r)) = (rec, first_resp(&out)) {
+                if r.status == 0 && d.ttl != 0 && d.ts + d.ttl as u64 <= now && follow_up.is_none() {
+                    follow_up = Some(format!(
+                        "after the concurrent phase the clock moved to {}: get {} returned {} although the record was stored at {} with TTL {}",
+                        now,
+                        wire::show(k),
+                        r.short(),
+                        d.ts,
+                        d.ttl
+                    ));
+                }
+            }
+        }
+    }
     let mut finals: Vec<(Vec<u8>, Option<Resp>)> = vec![];
     for k in &p.prog.keys {
         let out = c0.exec(&Req::get(op::GET, k).opaque(0xf1).bytes());
@@ -627,7 +681,8 @@ fn evaluate(
     }
     if viol.is_none() {
         if let Some(f) = &follow_up {
-            viol = Some((p.opts.c14_clause, format!("{} ; ops: {}", f, show_ops(ops))));
+            let clause = if p.opts.advance_after > 0 { "expired-visible-after-race" } else { p.opts.c14_clause };
+            viol = Some((clause, format!("{} ; ops: {}", f, show_ops(ops))));
         }
     }
     if viol.is_none() && p.opts.c15 && drift_change != 0 {
@@ -658,7 +713,7 @@ fn shuttle_config(max_steps: usize) -> shuttle::Config {
 /// Must be called once per OS thread before exploring: lets shuttle install its panic hook, then
 /// puts the quiet one back on top.
 pub fn warm_up() {
-    let r = shuttle::Runner::new(DfsSched { started: false, single: true }, shuttle_config(1000));
+    let r = shuttle::Runner::new(DfsSched { started: false, single: true, last: usize::MAX, consec: 0 }, shuttle_config(1000));
     r.run(|| {});
     sut::reinstall_panic_hook();
 }
@@ -671,7 +726,7 @@ fn run_once(p: &Arc<Prepared>, prefix: Vec<usize>) -> (Result<ExecResult, String
     let p2 = p.clone();
     let max_steps = p.opts.max_steps;
     let r = sut::catch(std::panic::AssertUnwindSafe(move || {
-        let runner = shuttle::Runner::new(DfsSched { started: false, single: true }, shuttle_config(max_steps));
+        let runner = shuttle::Runner::new(DfsSched { started: false, single: true, last: usize::MAX, consec: 0 }, shuttle_config(max_steps));
         runner.run(move || body(&p2));
     }));
     sut::IN_SCHED.with(|c| c.set(false));
@@ -729,7 +784,7 @@ pub fn explore_program(prog: &Program, opts: SchedOpts) -> ProgResult {
             let p2 = p.clone();
             let max_steps = opts.max_steps;
             let r = sut::catch(std::panic::AssertUnwindSafe(move || {
-                let runner = shuttle::Runner::new(DfsSched { started: false, single: false }, shuttle_config(max_steps));
+                let runner = shuttle::Runner::new(DfsSched { started: false, single: false, last: usize::MAX, consec: 0 }, shuttle_config(max_steps));
                 runner.run(move || body(&p2));
             }));
             let more = DRIVER.with(|d| {
